@@ -24,16 +24,27 @@
         d<n>       Delete n      file n is removed
         c<e>:<h>   SetCmd e h    the command line of statement e changes: new command hash h
         b<t>+<t>.. Build         one invocation of ninja with these targets ("b" alone: no target)
+        n<t>+<t>.. dry run       `ninja -n` with these targets (HistDry.dry_build): the state is left alone
+        f<t>+<t>..@<e>:<kind>/<e>:<kind>..   an invocation -j1 -k1 in which commands may fail (HistFailDefs.buildF):
+                   statement e fails when it is started; kind = u (outputs left alone) | d (outputs removed) |
+                   w<c> (every output o rewritten with content c + o, fresh ticks)
 
    Output line:
      wf=<0|1> frag=<0|1> topo=<0|1> nip=<0|1> hok=<0|1>      wf_b, frag_AB, topo_ordered, no_inputless_phony, hist_ok
-     then for every Build step, in order:
-      | B ok=<0|1> run=<e>+<e>..  nodes=<x><q>:<content>:<mtime>:<loghash>:<logmtime>,...
+     then for every Build / dry-run / failing-build step, in order:
+      | B ok=<0|1> ts=<0|1> run=<e>+<e>..  nodes=<x><q>:<content>:<mtime>:<loghash>:<logmtime>,...
         ok   the model accepted the build (scan = ScanOk); 0 = refused, nothing runs, the state is unchanged
         run  the statements whose command ran in this build, oldest first ("-" = none)   [h_trace delta]
         nodes, for node 0 .. N-1 AFTER the build: x = the file exists, q = content_of = clean_of (the C01 predicate),
              content in hex and mtime (the model's logical clock) in decimal ("-" = no file), then the node's build-log
-             entry: command hash in hex, recorded mtime in decimal ("-:-" = no entry) *)
+             entry: command hash in hex, recorded mtime in decimal ("-:-" = no entry)
+        ts   taint_safe of the state the invocation starts in (HistFailDefs: no output written by a failed command is
+             validated by an old log entry; the hypothesis of C01 with failures)
+      | N ok=<0|1> list=<e>+<e>.. nodes=...       dry run: ok = accepted, list = the commands it prints (HistDry.dry_list,
+             statement order), nodes = the state after it (HistDry: the state before it)
+      | F ok=<0|1> failed=<0|1> fe=<e> ts=<0|1> run=<e>+<e>.. nodes=...   failing build: ok = accepted by the scan,
+             failed = exit flag "subcommand failed", fe = the statement that failed ("-" = none),
+             run = the commands STARTED, oldest first (the failing one is the last) *)
 open Histmodel
 
 let rec pos_of_int n : positive =
@@ -74,14 +85,29 @@ let field kv k = try List.assoc k kv with Not_found -> "-"
 let items sep s = if s = "-" || s = "" then [] else String.split_on_char sep s
 let rest s = String.sub s 1 (String.length s - 1)
 
-let parse_step (t : string) : hstep =
+type xstep =
+  | P of hstep
+  | Dry of nat list
+  | FB of nat list * (int * char * int) list     (* targets, (statement, kind, content base) *)
+
+let parse_step (t : string) : xstep =
   let two s = match String.split_on_char ':' s with
     | [a; b] -> (int_of_string a, int_of_string b) | _ -> failwith ("bad step " ^ t) in
   match t.[0] with
-  | 'e' -> let (n, c) = two (rest t) in Edit (nat_of_int n, n_of_int c)
-  | 'd' -> Delete (nat_of_int (int_of_string (rest t)))
-  | 'c' -> let (e, h) = two (rest t) in SetCmd (nat_of_int e, n_of_int h)
-  | 'b' -> Build (nids '+' (rest t))
+  | 'e' -> let (n, c) = two (rest t) in P (Edit (nat_of_int n, n_of_int c))
+  | 'd' -> P (Delete (nat_of_int (int_of_string (rest t))))
+  | 'c' -> let (e, h) = two (rest t) in P (SetCmd (nat_of_int e, n_of_int h))
+  | 'b' -> P (Build (nids '+' (rest t)))
+  | 'n' -> Dry (nids '+' (rest t))
+  | 'f' ->
+    (match String.split_on_char '@' (rest t) with
+     | [ts; fs] ->
+       FB (nids '+' ts, List.map (fun f -> match String.split_on_char ':' f with
+           | [e; k] when k <> "" ->
+             (int_of_string e, k.[0], if k.[0] = 'w' then int_of_string (String.sub k 1 (String.length k - 1)) else 0)
+           | _ -> failwith ("bad fault " ^ f)) (items '/' fs))
+     | [ts] -> FB (nids '+' ts, [])
+     | _ -> failwith ("bad step " ^ t))
   | _ -> failwith ("bad step " ^ t)
 
 let hist_line (direct : bool) (l : string) : string =
@@ -118,7 +144,8 @@ let hist_line (direct : bool) (l : string) : string =
   let buf = Buffer.create 256 in
   Buffer.add_string buf
     (Printf.sprintf "wf=%s frag=%s topo=%s nip=%s hok=%s" (b (wf_b g (nat_of_int nnodes))) (b (frag_AB g))
-       (b (topo_ordered g)) (b (no_inputless_phony g)) (b (hist_ok g steps)));
+       (b (topo_ordered g)) (b (no_inputless_phony g))
+       (b (hist_ok g (List.concat_map (function P s -> [s] | _ -> []) steps))));
   let nodes = List.init nnodes nat_of_int in
   let st = ref (init_hstate g) in
   let memo = Hashtbl.create 256 in
@@ -136,22 +163,49 @@ let hist_line (direct : bool) (l : string) : string =
       | _ -> (true, apply_step mcmd g st s) in
   let is_clean g st n =
     if direct then is_clean g st n else opt_content_eqb (content_of st n) (clean_of mcmd g st n) in
+  let cmdf = if direct then hcmd g else mcmd in
+  let show_nodes st' =
+    js "," (List.map (fun n ->
+        let fl = match st'.h_disk n with
+          | Some (m, c) -> Printf.sprintf "1%s:%s:%d" (b (is_clean g st' n)) (hex_of_n c) (int_of_z m)
+          | None -> Printf.sprintf "0%s:-:-" (b (is_clean g st' n)) in
+        let lg = match st'.h_blog n with
+          | Some (h, m) -> Printf.sprintf "%s:%d" (hex_of_n h) (int_of_z m)
+          | None -> "-:-" in
+        fl ^ ":" ^ lg) nodes) in
+  let es l = js "+" (List.map (fun e -> string_of_int (int_of_nat e)) l) in
   List.iter (fun s ->
-      let (ok, st') = step !st s in
-      (match s with
-       | Build _ ->
-         let run = List.map (fun e -> string_of_int (int_of_nat e)) (trace_delta !st st') in
-         let ns = List.map (fun n ->
-             let fl = match st'.h_disk n with
-               | Some (m, c) -> Printf.sprintf "1%s:%s:%d" (b (is_clean g st' n)) (hex_of_n c) (int_of_z m)
-               | None -> Printf.sprintf "0%s:-:-" (b (is_clean g st' n)) in
-             let lg = match st'.h_blog n with
-               | Some (h, m) -> Printf.sprintf "%s:%d" (hex_of_n h) (int_of_z m)
-               | None -> "-:-" in
-             fl ^ ":" ^ lg) nodes in
-         Buffer.add_string buf (Printf.sprintf " | B ok=%s run=%s nodes=%s" (b ok) (js "+" run) (js "," ns))
-       | _ -> ());
-      st := st') steps;
+      match s with
+      | P hs ->
+        let ts = match hs with Build _ -> taint_safe g !st | _ -> true in
+        let (ok, st') = step !st hs in
+        (match hs with
+         | Build _ ->
+           Buffer.add_string buf (Printf.sprintf " | B ok=%s ts=%s run=%s nodes=%s" (b ok) (b ts)
+                                    (es (trace_delta !st st')) (show_nodes st'))
+         | _ -> ());
+        st := st'
+      | Dry t ->
+        (match dry_build g !st t with
+         | Some (st', l) ->
+           Buffer.add_string buf (Printf.sprintf " | N ok=1 list=%s nodes=%s" (es l) (show_nodes st')); st := st'
+         | None -> Buffer.add_string buf (Printf.sprintf " | N ok=0 list=- nodes=%s" (show_nodes !st)))
+      | FB (t, fs) ->
+        let ts = taint_safe g !st in
+        let faults = List.map (fun (e, k, c) ->
+            (nat_of_int e, match k with
+              | 'u' -> FailUntouched | 'd' -> FailDeleted
+              | 'w' -> FailWrote (fun o -> n_of_int (c + int_of_nat o))
+              | _ -> failwith "bad fault kind")) fs in
+        (match buildF_full cmdf g !st t faults with
+         | Some (st', r) ->
+           let (failed, fe) = match r with Some ((e, _), _) -> (true, string_of_int (int_of_nat e)) | None -> (false, "-") in
+           Buffer.add_string buf (Printf.sprintf " | F ok=1 failed=%s fe=%s ts=%s run=%s nodes=%s" (b failed) fe (b ts)
+                                    (es (trace_delta !st st')) (show_nodes st'));
+           st := st'
+         | None ->
+           Buffer.add_string buf (Printf.sprintf " | F ok=0 failed=0 fe=- ts=%s run=- nodes=%s" (b ts) (show_nodes !st))))
+    steps;
   Buffer.contents buf
 
 let each_line f =
